@@ -398,6 +398,7 @@ def fold_size(f, size):
 
 
 VARIANTS = [
+    M('R11', LOG, "             0x08: ('FP16', '<e', 2),\n             0x07: ('float', '<f', 4)}", "             0x07: ('FP16', '<e', 2),\n             0x08: ('float', '<f', 4)}", 'FP16 / float codes swapped'),
     M('R8', SL, "        self._queue.put((ts, data, logblock))\n", "        if self._is_connected:\n            self._queue.put((ts, data, logblock))\n", 'samples dropped until connect() has returned'),
     M('R1', LOG, "(logconf.period > 0 and logconf.period < 0xFF)):", "(logconf.period > 0 and logconf.period < 0x100)):", 'period < 0x100'),
     M('R1', LOG, "        if (size <= LogConfig.MAX_LEN and", "        if (size < LogConfig.MAX_LEN + 2 and", 'size bound'),
